@@ -52,6 +52,7 @@ public:
     : Input(input_param), pkt_buf_len_(ETH_LEN), 
       sock_offset_(0), sock_tail_(0)
   {
+    fds_[0] = fds_[1] = epfd_ = -1;  // nothing to close until init() has succeeded
     sock_offset_ += input_param.user_layer_bytes;
     sock_tail_   += input_param.tail_layer_bytes;
   }
@@ -152,11 +153,13 @@ inline InputSock::~InputSock()
 {
   stop();
 
-  close(fds_[0]);
+  if (fds_[0] >= 0)
+    close(fds_[0]);
   if (fds_[1] >= 0)
     close(fds_[1]);
 
-  close(epfd_);
+  if (epfd_ >= 0)
+    close(epfd_);
 }
 
 inline int InputSock::createSocket(uint16_t port, const std::string& hostIp, const std::string& grpIp)
